@@ -100,7 +100,7 @@ impl Default for Bounds {
             wall_cap_s: 600.0,
             store_cap_bytes: 24 << 30,
             max_states: 50_000_000,
-            threads: std::thread::available_parallelism().map(|n| n.get()).unwrap_or(8),
+            threads: std::env::var("MC_THREADS").ok().and_then(|s| s.parse().ok()).unwrap_or_else(|| std::thread::available_parallelism().map(|n| n.get()).unwrap_or(8)),
             replay_sample: 64,
         }
     }
@@ -197,6 +197,7 @@ pub fn explore<Sc: Scenario>(scn: &Sc, b: &Bounds) -> Report {
     let w0 = scn.worker(&store);
     let bases = scn.bases(&w0);
     drop(w0);
+    store.commit();
     rep.bases = bases.iter().map(|b| b.0.clone()).collect();
 
     let mut visited: HashMap<Key, ()> = HashMap::new();
@@ -222,6 +223,7 @@ pub fn explore<Sc: Scenario>(scn: &Sc, b: &Bounds) -> Report {
         if frontier.is_empty() {
             break;
         }
+        let t_level = Instant::now();
         let nthreads = b.threads.max(1).min(frontier.len().max(1));
         let chunk = frontier.len().div_ceil(nthreads);
         type Out<S, A> = (
@@ -229,12 +231,14 @@ pub fn explore<Sc: Scenario>(scn: &Sc, b: &Bounds) -> Report {
             BTreeMap<String, BTreeMap<String, u64>>,
             Vec<(usize, usize, A, Vec<usize>, String)>,
             Vec<Known>,
+            mcvm::store::Blocks,
         );
         let results: Vec<Out<Sc::S, Sc::A>> = std::thread::scope(|sc| {
             let mut hs = vec![];
             for (ci, nodes) in frontier.chunks(chunk).enumerate() {
-                let store = store.clone();
+                let store = store.fork();
                 let stop = &stop;
+                let visited = &visited;
                 let transitions = &transitions;
                 let fault_transitions = &fault_transitions;
                 let agreed = &agreed;
@@ -242,7 +246,9 @@ pub fn explore<Sc: Scenario>(scn: &Sc, b: &Bounds) -> Report {
                     .stack_size(1 << 30)
                     .spawn_scoped(sc, move || {
                         let w = scn.worker(&store);
+                        store.keep();
                         let mut succs = vec![];
+                        let mut local_seen: std::collections::HashSet<Key> = Default::default();
                         let mut outcomes: BTreeMap<String, BTreeMap<String, u64>> = BTreeMap::new();
                         let mut viols = vec![];
                         let mut known = vec![];
@@ -250,13 +256,17 @@ pub fn explore<Sc: Scenario>(scn: &Sc, b: &Bounds) -> Report {
                             if stop.load(Ordering::Relaxed) {
                                 break;
                             }
+                            if t0.elapsed().as_secs_f64() > b.wall_cap_s {
+                                stop.store(true, Ordering::Relaxed);
+                                break;
+                            }
                             let node_idx = ci * chunk + ni;
                             let acts = scn.actions(&w, &node.s);
                             for (ai, a) in acts.iter().enumerate() {
                                 let st = scn.step(&w, &node.s, a, &[]);
                                 let sites = st.sites.clone();
-                                let mut handle = |st: Step<Sc::S>, faults: Vec<usize>| {
-                                    let Some(next) = st.next else { return };
+                                let mut handle_inner = |st: Step<Sc::S>, faults: Vec<usize>| -> bool {
+                                    let Some(next) = st.next else { return false };
                                     transitions.fetch_add(1, Ordering::Relaxed);
                                     if !faults.is_empty() {
                                         fault_transitions.fetch_add(1, Ordering::Relaxed);
@@ -270,16 +280,24 @@ pub fn explore<Sc: Scenario>(scn: &Sc, b: &Bounds) -> Report {
                                     known.extend(st.known);
                                     if let Some(v) = st.violation {
                                         viols.push((node_idx, ai, a.clone(), faults.clone(), v));
-                                        return;
+                                        return false;
+                                    }
+                                    let key = scn.key(&next);
+                                    if visited.contains_key(&key) || !local_seen.insert(key) {
+                                        return false;
                                     }
                                     succs.push(Succ {
-                                        key: scn.key(&next),
+                                        key,
                                         s: next,
                                         parent_node: node_idx,
                                         act_idx: ai,
                                         action: a.clone(),
                                         faults,
                                     });
+                                    true
+                                };
+                                let mut handle = |st: Step<Sc::S>, faults: Vec<usize>| {
+                                    if handle_inner(st, faults) { store.keep() } else { store.discard() }
                                 };
                                 handle(st, vec![]);
                                 if b.max_faults > 0 && !sites.is_empty() {
@@ -290,7 +308,8 @@ pub fn explore<Sc: Scenario>(scn: &Sc, b: &Bounds) -> Report {
                                 }
                             }
                         }
-                        (succs, outcomes, viols, known)
+                        drop(w);
+                        (succs, outcomes, viols, known, store.take_local())
                     })
                     .unwrap();
                 hs.push(h);
@@ -298,11 +317,32 @@ pub fn explore<Sc: Scenario>(scn: &Sc, b: &Bounds) -> Report {
             hs.into_iter().map(|h| h.join().expect("worker panicked (machinery error)")).collect()
         });
 
-        // deterministic merge
+        let t_expand = t_level.elapsed().as_secs_f64();
+        let mut block_sets = vec![];
+        let mut results2 = vec![];
+        for (s, o, v, k, blocks) in results {
+            block_sets.push(blocks);
+            results2.push((s, o, v, k));
+        }
+        std::thread::scope(|sc| {
+            for bs in block_sets {
+                let store = &store;
+                sc.spawn(move || store.absorb(bs));
+            }
+        });
+        let t_absorb = t_level.elapsed().as_secs_f64();
+        // Deterministic merge without sorting: workers own contiguous, increasing ranges of
+        // parent nodes and emit successors in (parent, action, fault-plan) order, so taking the
+        // first occurrence of every key while walking the workers in order picks the
+        // lexicographically least (parent, action, plan) independently of the thread count.
         let mut all: Vec<Succ<Sc::S, Sc::A>> = vec![];
         let mut viols = vec![];
-        for (s, o, v, k) in results {
-            all.extend(s);
+        for (s, o, v, k) in results2 {
+            for x in s {
+                if visited.insert(x.key, ()).is_none() {
+                    all.push(x);
+                }
+            }
             for (kind, m) in o {
                 let e = rep.outcomes.entry(kind).or_default();
                 for (oc, n) in m {
@@ -315,9 +355,8 @@ pub fn explore<Sc: Scenario>(scn: &Sc, b: &Bounds) -> Report {
                 e.1 += 1;
             }
         }
-        all.sort_by(|a, b| {
-            (a.key, a.parent_node, a.act_idx, &a.faults).cmp(&(b.key, b.parent_node, b.act_idx, &b.faults))
-        });
+        let t_ext = t_level.elapsed().as_secs_f64();
+        let t_sort = t_level.elapsed().as_secs_f64();
         viols.sort_by(|a, b| (a.0, a.1, &a.3).cmp(&(b.0, b.1, &b.3)));
         let path_of = |paths: &Vec<PathRec<Sc::A>>, mut p: usize| {
             let mut v = vec![];
@@ -345,18 +384,18 @@ pub fn explore<Sc: Scenario>(scn: &Sc, b: &Bounds) -> Report {
         }
         let mut next: Vec<Node<Sc::S>> = vec![];
         for s in all {
-            if visited.contains_key(&s.key) {
-                continue;
-            }
-            visited.insert(s.key, ());
             let parent = &frontier[s.parent_node];
             paths.push(PathRec { parent: parent.path, action: s.action, faults: s.faults });
             next.push(Node { s: s.s, path: paths.len() - 1, base: parent.base });
         }
         rep.states += next.len() as u64;
+        if std::env::var("MC_TIMING").is_ok() {
+            eprintln!("  level {} expand {:.2}s absorb {:.2}s extend {:.2}s sort {:.2}s rest {:.2}s new {}", depth + 1, t_expand, t_absorb - t_expand, t_ext - t_absorb, t_sort - t_ext, t_level.elapsed().as_secs_f64() - t_sort, next.len());
+        }
         rep.level_sizes.push(next.len() as u64);
         if stop.load(Ordering::Relaxed) {
             capped = true;
+            rep.caps_hit.push(format!("wall cap {}s hit inside depth {} (that level is incomplete and not counted as completed)", b.wall_cap_s, depth + 1));
             break;
         }
         rep.depth_completed = depth + 1;
@@ -384,6 +423,7 @@ pub fn explore<Sc: Scenario>(scn: &Sc, b: &Bounds) -> Report {
             break;
         }
     }
+    if std::env::var("MC_TIMING").is_ok() { eprintln!("  loop done at {:.2}s", t0.elapsed().as_secs_f64()); }
     rep.transitions = transitions.load(Ordering::Relaxed);
     rep.fault_transitions = fault_transitions.load(Ordering::Relaxed);
     rep.agreed = agreed.load(Ordering::Relaxed);
@@ -434,6 +474,7 @@ pub fn explore<Sc: Scenario>(scn: &Sc, b: &Bounds) -> Report {
             }
         }
     }
+    if std::env::var("MC_TIMING").is_ok() { eprintln!("  replay done at {:.2}s", t0.elapsed().as_secs_f64()); }
     rep.wall_s = t0.elapsed().as_secs_f64();
     rep.store_bytes = store.bytes();
     rep
